@@ -53,7 +53,7 @@ type Client struct {
 	sess *wamp.Session
 
 	responseTimeout time.Duration
-	awaitingReply   map[wamp.ID]chan wamp.Message
+	awaitingReply   map[wamp.ID]*replyWaiter
 
 	eventHandlers map[wamp.ID]EventHandler
 	topicSubID    map[string]wamp.ID
@@ -275,7 +275,7 @@ func NewClient(p wamp.Peer, cfg Config) (*Client, error) {
 		sess: sess,
 
 		responseTimeout: cfg.ResponseTimeout,
-		awaitingReply:   map[wamp.ID]chan wamp.Message{},
+		awaitingReply:   map[wamp.ID]*replyWaiter{},
 
 		eventHandlers: map[wamp.ID]EventHandler{},
 		topicSubID:    map[string]wamp.ID{},
@@ -995,9 +995,7 @@ func (c *Client) CallProgressive(ctx context.Context, procedure string, sendProg
 // is given up before it was sent: the awaiting-reply entry and the goroutine
 // that delivers progressive results.
 func (c *Client) abandonCall(id wamp.ID, progChan chan *wamp.Result, progDone chan struct{}) {
-	c.sess.Lock()
-	delete(c.awaitingReply, id)
-	c.sess.Unlock()
+	c.forgetReply(id)
 	if progChan != nil {
 		close(progChan)
 		<-progDone
@@ -1332,9 +1330,33 @@ func unexpectedMsgError(msg wamp.Message, expected wamp.MessageType) error {
 }
 
 func (c *Client) expectReply(id wamp.ID) {
-	wait := make(chan wamp.Message)
+	wait := &replyWaiter{
+		msgs: make(chan wamp.Message),
+		gone: make(chan struct{}),
+	}
 	c.sess.Lock()
 	c.awaitingReply[id] = wait
+	c.sess.Unlock()
+}
+
+// replyWaiter is the rendezvous between the run() goroutine and an API call
+// waiting for a reply.
+type replyWaiter struct {
+	// msgs carries the replies from run() to the waiter.
+	msgs chan wamp.Message
+	// gone is closed when the waiter stops waiting, so that run() is not left
+	// blocked handing a late reply to a waiter that already gave up.
+	gone chan struct{}
+}
+
+// forgetReply removes the expectation of a reply, and releases run() if it is
+// delivering a reply that is no longer waited for.
+func (c *Client) forgetReply(id wamp.ID) {
+	c.sess.Lock()
+	if w, ok := c.awaitingReply[id]; ok {
+		delete(c.awaitingReply, id)
+		close(w.gone)
+	}
 	c.sess.Unlock()
 }
 
@@ -1345,13 +1367,13 @@ func (c *Client) expectReply(id wamp.ID) {
 // awaiting reply channel.
 func (c *Client) waitForReply(id wamp.ID) (wamp.Message, error) {
 	var wait chan wamp.Message
-	var ok bool
 	c.sess.Lock()
-	wait, ok = c.awaitingReply[id]
+	w, ok := c.awaitingReply[id]
 	c.sess.Unlock()
 	if !ok {
 		return nil, fmt.Errorf("not expecting reply for ID: %v", id)
 	}
+	wait = w.msgs
 
 	var msg wamp.Message
 	var err error
@@ -1368,9 +1390,7 @@ func (c *Client) waitForReply(id wamp.ID) (wamp.Message, error) {
 	case <-c.Done():
 		err = ErrNotConn
 	}
-	c.sess.Lock()
-	delete(c.awaitingReply, id)
-	c.sess.Unlock()
+	c.forgetReply(id)
 
 	return msg, err
 }
@@ -1383,13 +1403,13 @@ func (c *Client) waitForReply(id wamp.ID) (wamp.Message, error) {
 // awaiting reply channel.
 func (c *Client) waitForReplyWithCancel(ctx context.Context, id wamp.ID, procedure string, progChan chan<- *wamp.Result) (wamp.Message, error) { //nolint:lll
 	var wait chan wamp.Message
-	var ok bool
 	c.sess.Lock()
-	wait, ok = c.awaitingReply[id]
+	w, ok := c.awaitingReply[id]
 	c.sess.Unlock()
 	if !ok {
 		return nil, fmt.Errorf("not expecting reply for ID: %v", id)
 	}
+	wait = w.msgs
 
 	var msg wamp.Message
 	var err error
@@ -1444,9 +1464,7 @@ CollectResults:
 		err = ErrNotConn
 	}
 	// All done with this call, so not waiting for more replies.
-	c.sess.Lock()
-	delete(c.awaitingReply, id)
-	c.sess.Unlock()
+	c.forgetReply(id)
 
 	return msg, err
 }
@@ -1957,10 +1975,8 @@ func (c *Client) runHandleInterrupt(msg *wamp.Interrupt) {
 }
 
 func (c *Client) runSignalReply(msg wamp.Message, requestID wamp.ID) {
-	var w chan wamp.Message
-	var ok bool
 	c.sess.Lock()
-	w, ok = c.awaitingReply[requestID]
+	w, ok := c.awaitingReply[requestID]
 	c.sess.Unlock()
 	if !ok {
 		c.log.Println("Received", msg.MessageType(), requestID,
@@ -1968,7 +1984,10 @@ func (c *Client) runSignalReply(msg wamp.Message, requestID wamp.ID) {
 		return
 	}
 	select {
-	case w <- msg:
+	case w.msgs <- msg:
+	case <-w.gone:
+		c.log.Println("Received", msg.MessageType(), requestID,
+			"that client is no longer waiting for")
 	case <-c.Done():
 	}
 }
